@@ -19,7 +19,10 @@ package queue
 //     one no later than the timeout, a Flush releases everything pending; no empty batch;
 //   * a flush channel is closed exactly by Close of the Request that carries its write.
 
-import "time"
+import (
+	"syscall"
+	"time"
+)
 
 const verifC24Timeout = 100 * time.Millisecond
 
@@ -45,8 +48,9 @@ type verifCmd struct {
 }
 
 type verifWorker struct {
-	cmd  chan verifCmd
-	busy bool
+	cmd     chan verifCmd
+	busy    bool
+	writing bool // busy with a Write (as opposed to a Flush)
 }
 
 type verifC24 struct {
@@ -109,6 +113,49 @@ func (h *verifC24) work(w *verifWorker) {
 	}
 }
 
+// writers counts the workers that were inside Write when last seen.
+func (h *verifC24) writers() int {
+	n := 0
+	for _, w := range h.ws {
+		if w.busy && w.writing {
+			n++
+		}
+	}
+	return n
+}
+
+// settle waits until every other goroutine is parked. With two callers inside Write one of them
+// may be parked on the queue's mutex (behind a caller parked on the full channel).
+// testing/synctest does not count a goroutine waiting for a sync.Mutex as durably blocked, so
+// synctest.Wait would never return in the native replay; there the harness waits in real time
+// until nothing moves any more. The symbolic run always uses the exact verifSettle.
+func (h *verifC24) settle() {
+	if verifSymbolic() || h.writers() < 2 {
+		verifSettle()
+		return
+	}
+	var last [8]int
+	for same, i := 0, 0; i < 5000 && same < 20; i++ {
+		syscall.Nanosleep(&syscall.Timespec{Nsec: 1_000_000}, nil)
+		cur := [8]int{len(h.q.C), len(h.q.batchCh), h.flushDone}
+		for j, w := range h.ws {
+			if w.busy {
+				cur[3+j] = 1
+			}
+		}
+		for _, w := range h.writes {
+			if w.returned {
+				cur[5]++
+			}
+		}
+		if cur == last {
+			same++
+		} else {
+			same, last = 0, cur
+		}
+	}
+}
+
 // cleanup lets the goroutines of a native replay finish (best effort, never blocks).
 func (h *verifC24) cleanup() {
 	if verifSymbolic() {
@@ -123,13 +170,13 @@ func (h *verifC24) cleanup() {
 		case <-h.q.batchCh:
 		default:
 		}
-		verifSettle()
+		h.settle()
 	}
 	for _, w := range h.ws {
 		close(w.cmd)
 	}
 	close(h.q.done)
-	verifSettle()
+	h.settle()
 }
 
 func (h *verifC24) idleWorker() *verifWorker {
@@ -173,7 +220,7 @@ func (h *verifC24) newWrite(n int, withChan, one bool) *verifWrite {
 }
 
 func (h *verifC24) command(wk *verifWorker, c verifCmd) {
-	wk.busy = true
+	wk.busy, wk.writing = true, c.w != nil
 	if c.w == nil {
 		h.flushCmd++
 	}
@@ -303,7 +350,7 @@ func (h *verifC24) consume() {
 	}
 	h.sent = b
 	h.visible = false
-	verifSettle()
+	h.settle()
 	h.observe()
 }
 
@@ -329,8 +376,10 @@ func (h *verifC24) enabled() []int {
 	if h.visible {
 		acts = append(acts, vActConsume)
 	}
-	// time only matters while something has been written and not yet received
-	if h.timeout > 0 && (h.pending() > 0 || !h.quiet()) {
+	// time only matters while something has been written and not yet received; with two callers
+	// inside Write the consumer is behind and no timer is armed (and the fake clock of the native
+	// replay cannot move while a goroutine waits for a mutex)
+	if h.timeout > 0 && (h.pending() > 0 || !h.quiet()) && h.writers() < 2 {
 		acts = append(acts, vActAdvance, vActAdvanceHalf)
 	}
 	return acts
@@ -357,7 +406,7 @@ func (h *verifC24) step(act int) {
 	case vActAdvanceHalf:
 		verifAdvanceClock(int64(h.timeout) / 2)
 	}
-	verifSettle()
+	h.settle()
 	h.observe()
 	switch act {
 	case vActFlush:
@@ -385,7 +434,7 @@ func (h *verifC24) finish() {
 	verifAssert("C24-consumer-drains-queue", h.quiet())
 	before := h.pending()
 	h.command(h.ws[0], verifCmd{})
-	verifSettle()
+	h.settle()
 	h.observe()
 	if before > 0 {
 		verifAssert("C24-flush-releases-pending", h.visible)
@@ -405,7 +454,7 @@ func verifC24Run(steps int, batchSize int, timeout time.Duration, maxSize int) {
 	defer h.cleanup()
 	for s := 0; s < steps; s++ {
 		acts := h.enabled()
-		h.step(acts[verifChoice(verifName("act", s), len(acts))])
+		h.step(acts[verifChoice(verifName("act", s), len(acts))%len(acts)])
 	}
 	h.finish()
 }
